@@ -3,6 +3,7 @@ import os, sys
 sys.path.insert(0, os.path.join(os.path.dirname(os.path.abspath(__file__)), '..'))
 from go2v_hook import go2v_hook
 CONF = {
+    'coq_sample': 25,   # cases re-evaluated inside Coq by vm_compute against the extracted runner's output
     'pre': [go2v_hook],
     'interesting': ['unequal-length-shared-prefix', 'equal-bytes-different-type', 'len-17-reject',
                     'reversed-pair', 'layer-flow'],
